@@ -274,6 +274,8 @@ def hygiene(paths):
 class Ctx:
     def __init__(self, prop, tier, seed):
         self.prop, self.tier, self.seed = prop, tier, seed
+        self.requested_tier = tier     # what the command line asked for; `tier` is the exploration budget actually used
+        self.escalated = False
         self.t0 = time.time()
         self.cov = {}
         self.notes = []
@@ -285,6 +287,11 @@ class Ctx:
     def rng(self, stream):
         h = hashlib.sha256(('%s|%s|%d' % (self.prop, stream, self.seed)).encode()).digest()
         return random.Random(int.from_bytes(h[:8], 'big'))
+
+    def escalate(self):
+        """use the thorough exploration budget although the quick tier was requested (anchored source changed)"""
+        self.escalated = True
+        self.tier = 'thorough'
 
     def quick(self):
         return self.tier == 'quick'
@@ -301,6 +308,28 @@ class Ctx:
 
     def fail(self, kind, what, case=None, concrete=False):
         self.failures.append(dict(kind=kind, what=what, case=case, concrete=concrete))
+
+    def guarded(self, what, case):
+        """context manager: an exception raised while the implementation is on the stack, on an input the property's quantifier admits,
+        is a concrete failure of the property on that input (the code under test did not deliver the promised result); exceptions of the
+        harness itself propagate.  Use around calls of the implementation that must succeed on admissible inputs."""
+        import contextlib
+        import traceback as _tb
+
+        @contextlib.contextmanager
+        def cm():
+            try:
+                yield
+            except Exception as ex:
+                tb = _tb.extract_tb(ex.__traceback__)
+                inrepo = [fr for fr in tb if os.path.abspath(fr.filename).startswith(os.path.abspath(REPO) + os.sep)]
+                if not inrepo:
+                    raise
+                fr = inrepo[-1]
+                self.fail('conclusion', '%s: the implementation raised %s: %s at %s:%d (%s) on an admissible input'
+                          % (what, type(ex).__name__, str(ex)[:300], os.path.relpath(fr.filename, REPO), fr.lineno, fr.name),
+                          case=case, concrete=True)
+        return cm()
 
     def log(self, *a):
         print('[%s %6.1fs]' % (self.prop, time.time() - self.t0), *a, flush=True)
